@@ -85,9 +85,8 @@ def _headline_key(first_line: str, zid: str):
 
 def run_dir(acc: Acc, seed: int, idx: int, nmoves: int, only=None) -> None:
     rng = rng_for(ID, seed, f"d{idx}")
-    base = harness.fresh_dir("c10")
-    root = base / "org"
-    root.mkdir()
+    root = harness.notes_root("c10", idx)
+    base = harness.scratch() / "c10"
     with frozen(TODAY):
         opts = pg.GenOpts(max_items=3, max_blocks=2, allow_mod_without_zid=False, p_zid=1.0, p_section_meta=0.8, p_cont=0.4, p_collision=0.05, symbols=False)
         z = zd.gen_zdir(rng, opts, n_pages=rng.choice([2, 3]))
@@ -229,7 +228,9 @@ def run_dir(acc: Acc, seed: int, idx: int, nmoves: int, only=None) -> None:
             res = db.cli(root, *args, config=cfg)
             ev = TRACER.stop()
             if res.rc != 0:
-                acc.not_judged += 1
+                # every generated move names an indexed note and a usable destination: the command has no reason to fail
+                acc.judged += 1
+                acc.violation(f"`zorg {' '.join(args)}` fails (rc={res.rc}) although {zid} is an indexed note of {src} and {dest} is a usable destination: {res.err[-300:]} {res.exc}", case, cls="note move fails for an indexed note")
                 continue
             acc.judged += 1
             acc.count("moves.successful")
